@@ -10,6 +10,7 @@ import Yaep.Model.MakeParse
 import Yaep.Model.BuildSet
 import Yaep.Model.CodeTable
 import Yaep.Model.BuildSet2
+import Yaep.Model.PruneC
 /-!
 # The judge: compares the observations of the real library with the model
 
@@ -255,6 +256,58 @@ def judgeMakeParse (cid : String) (o : Op) (g : Grammar) (oneP : Bool) (amb : In
   | .cyclic => out := out.s cid s!"makeparse op={o.n} model graph cyclic"
   return out
 
+/-- deep tie of `find_minimal_translation` (cost flag on): the model of `make_parse` builds all
+parses from the dumped parse list (as the C code does under the cost flag), the step-for-step
+model of the pruning (`Model/PruneC.lean`: `pruneC_denote`, `pruneC_costs_restored`,
+`pruneC_frees`) prunes it with the object's one-parse flag, and the result must be the packed
+forest the harness exported, with as many blocks handed back to `parse_free` -/
+def judgePrune (cid : String) (o : Op) (g : Grammar) (oneP : Bool) (out : Out) : Out := Id.run do
+  let mut out := out
+  let setLines := o.get "set"
+  let implLines := ((o.get "node").map fun ws => " ".intercalate ("node" :: ws)) ++
+    ((o.get "root").map fun ws => " ".intercalate ("root" :: ws))
+  if setLines.isEmpty || (o.get "root").isEmpty || (o.first "pltoks").isNone then return out
+  if setLines.length > 400 then return out
+  let sets : Array (Array Item) := (setLines.map fun ws => ((ws.drop 2).map parseItemW).toArray).toArray
+  let plToks : Array Int := (((o.first "pltoks").getD []).map toInt).toArray
+  match MP.makeParseSt (MP.mkCtx g sets plToks false) 400000 with
+  | some s =>
+    if s.bad then return out.s cid s!"prune op={o.n} make_parse model hit a step that is undefined in C"
+    match s.result with
+    | some r =>
+      let h := PC.ofHeap s.heap
+      let free := (o.args.getD 1 "user") != "null"
+      -- one name block per rule in C, per name here: cells are told apart by the hash of the name
+      let nameId := fun (i : Nat) => match PC.cellAt h i with | .anode nm _ _ => (hash nm).toNat | _ => 0
+      let R := PC.findMinimalTranslation (h.size + 1) h r oneP free nameId s.nilUsed s.errUsed
+      if R.oof then return out.s cid s!"prune op={o.n} out of fuel"
+      match MP.exportTable (PC.toHeap R.heap) R.root with
+      | some (tab, rt) =>
+        let modelLines := MP.renderTable tab rt
+        let exact := modelLines == implLines
+        let implTab := o.nodeTable
+        let implRoot := toNat (((o.first "root").getD ["0"]).headD "0")
+        let same := exact || ((forestHashes tab).getD rt 1 == (forestHashes implTab).getD implRoot 2 && tableWF implTab)
+        let detail :=
+          if same then s!"nodes={tab.size}"
+          else
+            let k := ((modelLines.zip implLines).takeWhile fun (a, b) => a == b).length
+            s!"first difference at line {k}: model=[{modelLines.getD k "<end>"}] impl=[{implLines.getD k "<end>"}] model={modelLines} impl={implLines}"
+        out := out.v cid o.n "C04" "D" same s!"pruning model: same packed forest with cost fields {detail}"
+        if !exact then out := out.s cid s!"prune-export-differs op={o.n}"
+        -- blocks handed back during the parse: the pruned cells and name blocks, then an unused NIL / ERROR node
+        let evF := (o.get "ev").filterMap fun ws => match ws with | "f" :: id :: _ => some (toNat id) | _ => none
+        let names := (g.rules.filterMap (·.anode))
+        if free && (o.args.getD 1 "user") == "user" && names.eraseDups.length == names.length then
+          let expN := R.frees.length + (if R.nilUsed then 0 else 1) + (if R.errUsed then 0 else 1)
+          out := out.v cid o.n "C13" "D" (evF.length == expN)
+            s!"pruning model: blocks handed to parse_free during the parse impl={evF.length} model={expN}"
+        out := out.s cid s!"prune ran one={oneP} cells={h.size} freed={R.frees.length}"
+      | none => out := out.s cid s!"prune op={o.n} model graph cyclic"
+    | none => out := out.s cid s!"prune op={o.n} model: no result"
+  | none => out := out.s cid s!"prune op={o.n} make_parse model out of fuel"
+  return out
+
 def judgeParse (cfg : ParseCfg) (cid : String) (o : Op) (hs : HState) (out : Out) : HState × Out := Id.run do
   let mut out := out
   let ak := o.args.getD 0 "user"
@@ -294,6 +347,8 @@ def judgeParse (cfg : ParseCfg) (cid : String) (o : Op) (hs : HState) (out : Out
   -- deep tie of make_parse itself (cost flag off)
   if hs.st.cost == 0 && rootS == "tree" then
     out := judgeMakeParse cid o g (hs.st.one != 0) amb out
+  if hs.st.cost != 0 && rootS == "tree" then
+    out := judgePrune cid o g (hs.st.one != 0) out
   -- the model's parse list; verdict from level min(la,1) (levels agree: `verdict_indep_of_la`)
   let mla := if la ≥ 2 then 1 else la
   let (err, pl) := if n ≤ cfg.maxSetToks then buildPL g mla w else (none, [])
